@@ -1,1 +1,1075 @@
-//! Shared fixtures of the v_server monitors.
+//! Shared fixtures of the v_server monitors (C14): run-time extraction of the RPC dispatch table,
+//! an in-process HTTP driver over `build_router(AppState)` on a `RecStore`, the scripted world
+//! (databases A/B/C/D + primary, their keys, marker content), per-method parameter builders and
+//! the admin snapshots used by the "no effect" oracle.
+
+use anda_db_server::{AppState, Scope, ServerOptions, build_router};
+use axum::Router;
+use axum::body::Body;
+use http_body_util::BodyExt;
+use serde_json::{Value, json};
+use std::collections::{BTreeMap, BTreeSet};
+use std::time::Duration;
+use tower::ServiceExt;
+pub use vcore::recstore::{Mutation, RecStore};
+
+// ---------------------------------------------------------------------------------------------
+// dispatch table extraction (text of api/mod.rs of the tree the harness was built against)
+
+#[derive(Clone, Copy, PartialEq, Eq, Debug, Hash, PartialOrd, Ord)]
+pub enum Effect {
+    Read,
+    Mutating,
+}
+
+impl Effect {
+    pub fn name(self) -> &'static str {
+        match self {
+            Effect::Read => "Read",
+            Effect::Mutating => "Mutating",
+        }
+    }
+}
+
+#[derive(Clone, Debug, Default)]
+pub struct MethodTable {
+    pub root: Vec<(String, Effect)>,
+    pub db: Vec<(String, Effect)>,
+    pub source: String,
+}
+
+impl MethodTable {
+    pub fn root_effect(&self, m: &str) -> Option<Effect> {
+        self.root.iter().find(|(n, _)| n == m).map(|(_, e)| *e)
+    }
+    pub fn db_effect(&self, m: &str) -> Option<Effect> {
+        self.db.iter().find(|(n, _)| n == m).map(|(_, e)| *e)
+    }
+    /// Union of all names of both tables, in table order (root first).
+    pub fn all_names(&self) -> Vec<String> {
+        let mut v: Vec<String> = vec![];
+        for (n, _) in self.root.iter().chain(self.db.iter()) {
+            if !v.contains(n) {
+                v.push(n.clone());
+            }
+        }
+        v
+    }
+}
+
+/// Directory of the server crate the harness was built against: `--arg server_src=`, else
+/// `VERIF_SERVER_SRC`, else the `anda_db_server = { path = ".." }` entry of the harness workspace
+/// manifest (so a scratch-worktree run reads the worktree's table), else /repo.
+pub fn server_crate_dir(arg: Option<&String>) -> String {
+    if let Some(a) = arg {
+        return a.clone();
+    }
+    if let Ok(e) = std::env::var("VERIF_SERVER_SRC") {
+        return e;
+    }
+    let ws = std::path::Path::new(env!("CARGO_MANIFEST_DIR")).join("../Cargo.toml");
+    if let Ok(txt) = std::fs::read_to_string(&ws) {
+        for line in txt.lines() {
+            let l = line.trim();
+            if l.starts_with("anda_db_server") {
+                if let Some(p) = l.split("path").nth(1) {
+                    if let Some(q) = p.split('"').nth(1) {
+                        return q.to_string();
+                    }
+                }
+            }
+        }
+    }
+    "/repo/rs/anda_db_server".to_string()
+}
+
+/// Removes `//` comments (outside string literals) so that arms inside comments are not read.
+fn strip_line_comments(src: &str) -> String {
+    let mut out = String::with_capacity(src.len());
+    for line in src.lines() {
+        let b = line.as_bytes();
+        let mut in_str = false;
+        let mut cut = b.len();
+        let mut i = 0;
+        while i < b.len() {
+            match b[i] {
+                b'\\' if in_str => i += 1,
+                b'"' => in_str = !in_str,
+                b'/' if !in_str && i + 1 < b.len() && b[i + 1] == b'/' => {
+                    cut = i;
+                    break;
+                }
+                _ => {}
+            }
+            i += 1;
+        }
+        out.push_str(&line[..cut]);
+        out.push('\n');
+    }
+    out
+}
+
+/// Text of the `{ .. }` block that follows the first occurrence of `header`.
+fn block_after<'a>(src: &'a str, header: &str) -> Option<&'a str> {
+    let start = src.find(header)?;
+    let rest = &src[start..];
+    let open = rest.find('{')?;
+    let b = rest.as_bytes();
+    let (mut depth, mut in_str, mut i) = (0i32, false, open);
+    while i < b.len() {
+        match b[i] {
+            b'\\' if in_str => i += 1,
+            b'"' => in_str = !in_str,
+            b'{' if !in_str => depth += 1,
+            b'}' if !in_str => {
+                depth -= 1;
+                if depth == 0 {
+                    return Some(&rest[open..=i]);
+                }
+            }
+            _ => {}
+        }
+        i += 1;
+    }
+    None
+}
+
+/// Reads the `"name" [| "name"..] => ( .., Read|Mutating )` arms of one `parse` function.
+fn parse_arms(block: &str) -> Result<Vec<(String, Effect)>, String> {
+    let parse_fn = block_after(block, "fn parse").ok_or("no `fn parse` in impl block")?;
+    let b = parse_fn.as_bytes();
+    let mut out: Vec<(String, Effect)> = vec![];
+    let mut pending: Vec<String> = vec![];
+    let mut i = 0;
+    while i < b.len() {
+        if b[i] == b'"' {
+            let mut j = i + 1;
+            let mut s = String::new();
+            while j < b.len() && b[j] != b'"' {
+                if b[j] == b'\\' && j + 1 < b.len() {
+                    j += 1;
+                }
+                s.push(b[j] as char);
+                j += 1;
+            }
+            pending.push(s);
+            i = j + 1;
+            continue;
+        }
+        if b[i] == b'=' && i + 1 < b.len() && b[i + 1] == b'>' {
+            i += 2;
+            if pending.is_empty() {
+                continue;
+            }
+            // the arm body: up to the `,` / `}` that closes it at nesting depth 0
+            let mut depth = 0i32;
+            let mut j = i;
+            while j < b.len() {
+                match b[j] {
+                    b'(' | b'{' | b'[' => depth += 1,
+                    b')' | b'}' | b']' => {
+                        if depth == 0 {
+                            break;
+                        }
+                        depth -= 1;
+                    }
+                    b',' if depth == 0 => break,
+                    _ => {}
+                }
+                j += 1;
+            }
+            let body = &parse_fn[i..j.min(b.len())];
+            let words: Vec<&str> = body
+                .split(|c: char| !(c.is_alphanumeric() || c == '_'))
+                .filter(|w| !w.is_empty())
+                .collect();
+            let r = words.iter().any(|w| *w == "Read");
+            let m = words.iter().any(|w| *w == "Mutating");
+            let eff = match (r, m) {
+                (true, false) => Effect::Read,
+                (false, true) => Effect::Mutating,
+                _ => {
+                    return Err(format!(
+                        "arm for {pending:?} is not classifiable as Read|Mutating: `{}`",
+                        body.trim()
+                    ));
+                }
+            };
+            for n in pending.drain(..) {
+                out.push((n, eff));
+            }
+            i = j;
+            continue;
+        }
+        i += 1;
+    }
+    if !pending.is_empty() {
+        return Err(format!("string literals without an arm: {pending:?}"));
+    }
+    Ok(out)
+}
+
+pub fn extract_method_table(server_dir: &str) -> Result<MethodTable, String> {
+    let path = format!("{server_dir}/src/api/mod.rs");
+    let raw = std::fs::read_to_string(&path).map_err(|e| format!("cannot read {path}: {e}"))?;
+    let src = strip_line_comments(&raw);
+    // only the non-test part of the file
+    let src = match src.find("#[cfg(test)]") {
+        Some(p) => &src[..p],
+        None => &src[..],
+    };
+    let root_block = block_after(src, "impl RootMethod").ok_or("no `impl RootMethod` block")?;
+    let db_block = block_after(src, "impl DbMethod").ok_or("no `impl DbMethod` block")?;
+    Ok(MethodTable {
+        root: parse_arms(root_block)?,
+        db: parse_arms(db_block)?,
+        source: path,
+    })
+}
+
+// ---------------------------------------------------------------------------------------------
+// HTTP driver
+
+#[derive(Clone, Copy, PartialEq, Eq, Debug, Hash, PartialOrd, Ord)]
+pub enum Enc {
+    Cbor,
+    Json,
+    /// JSON body without a Content-Type header (answered in the default encoding, CBOR)
+    Missing,
+}
+
+impl Enc {
+    pub fn name(self) -> &'static str {
+        match self {
+            Enc::Cbor => "cbor",
+            Enc::Json => "json",
+            Enc::Missing => "no-content-type",
+        }
+    }
+    /// Encoding the server answers in when only Content-Type is sent.
+    pub fn reply(self) -> Enc {
+        match self {
+            Enc::Json => Enc::Json,
+            _ => Enc::Cbor,
+        }
+    }
+}
+
+#[derive(Clone, Debug)]
+pub struct Req {
+    pub path: String,
+    /// raw value of the Authorization header
+    pub auth: Option<Vec<u8>>,
+    pub enc: Enc,
+    pub method: String,
+    pub params: Value,
+}
+
+impl Req {
+    pub fn describe(&self) -> Value {
+        json!({"path": self.path,
+               "authorization": self.auth.as_ref().map(|a| String::from_utf8_lossy(a).to_string()),
+               "encoding": self.enc.name(), "method": self.method, "params": self.params})
+    }
+}
+
+#[derive(Clone, Debug, PartialEq, Eq, Hash)]
+pub struct Resp {
+    pub status: u16,
+    pub headers: Vec<(String, Vec<u8>)>,
+    pub body: Vec<u8>,
+}
+
+impl Resp {
+    pub fn describe(&self) -> Value {
+        json!({"status": self.status,
+               "headers": self.headers.iter().map(|(k, v)| format!("{k}: {}", String::from_utf8_lossy(v))).collect::<Vec<_>>(),
+               "body": self.decoded().unwrap_or_else(|| json!(String::from_utf8_lossy(&self.body).to_string()))})
+    }
+    pub fn decoded(&self) -> Option<Value> {
+        let ct = self
+            .headers
+            .iter()
+            .find(|(k, _)| k == "content-type")
+            .map(|(_, v)| String::from_utf8_lossy(v).to_string())
+            .unwrap_or_default();
+        if ct.contains("json") {
+            serde_json::from_slice(&self.body).ok()
+        } else if ct.contains("cbor") {
+            cbor2::de::from_reader::<Value, _>(&self.body[..]).ok()
+        } else {
+            None
+        }
+    }
+    pub fn error_code(&self) -> Option<String> {
+        self.decoded()?.get("error")?.get("code")?.as_str().map(|s| s.to_string())
+    }
+    pub fn result(&self) -> Option<Value> {
+        self.decoded()?.get("result").cloned()
+    }
+    pub fn class_hash(&self) -> u64 {
+        vcore::hash_debug(self)
+    }
+}
+
+pub fn encode_body(enc: Enc, method: &str, params: &Value) -> Vec<u8> {
+    let req = json!({"method": method, "params": params});
+    match enc {
+        Enc::Cbor => {
+            let mut body = Vec::new();
+            cbor2::ser::to_writer(&req, &mut body).expect("cbor encode");
+            body
+        }
+        _ => serde_json::to_vec(&req).expect("json encode"),
+    }
+}
+
+/// Sends one request through the router. `Err` = the request could not even be built (harness).
+pub async fn send(app: &Router, req: &Req) -> Result<Resp, String> {
+    let body = encode_body(req.enc, &req.method, &req.params);
+    send_raw(app, "POST", &req.path, req.auth.as_deref(), req.enc, body).await
+}
+
+pub async fn send_raw(
+    app: &Router,
+    http_method: &str,
+    path: &str,
+    auth: Option<&[u8]>,
+    enc: Enc,
+    body: Vec<u8>,
+) -> Result<Resp, String> {
+    let mut b = http::Request::builder().method(http_method).uri(path);
+    match enc {
+        Enc::Cbor => b = b.header(http::header::CONTENT_TYPE, "application/cbor"),
+        Enc::Json => b = b.header(http::header::CONTENT_TYPE, "application/json"),
+        Enc::Missing => {}
+    }
+    if let Some(a) = auth {
+        let hv = http::HeaderValue::from_bytes(a).map_err(|e| format!("header value: {e}"))?;
+        b = b.header(http::header::AUTHORIZATION, hv);
+    }
+    let request = b.body(Body::from(body)).map_err(|e| format!("request build ({path}): {e}"))?;
+    let resp = app.clone().oneshot(request).await.map_err(|e| format!("oneshot: {e}"))?;
+    let status = resp.status().as_u16();
+    let mut headers: Vec<(String, Vec<u8>)> = resp
+        .headers()
+        .iter()
+        .map(|(k, v)| (k.as_str().to_string(), v.as_bytes().to_vec()))
+        .collect();
+    headers.sort();
+    let body = resp
+        .into_body()
+        .collect()
+        .await
+        .map_err(|e| format!("body collect: {e}"))?
+        .to_bytes()
+        .to_vec();
+    Ok(Resp { status, headers, body })
+}
+
+pub fn bearer(key: &str) -> Vec<u8> {
+    format!("Bearer {key}").into_bytes()
+}
+
+/// Lets spawned tasks make progress (current-thread runtime).
+pub async fn drain(yields: usize) {
+    for _ in 0..yields {
+        tokio::task::yield_now().await;
+    }
+}
+
+// ---------------------------------------------------------------------------------------------
+// the scripted world
+
+#[derive(Clone, Debug)]
+pub struct Names {
+    pub primary: String,
+    pub a: String,
+    pub b: String,
+    /// had a key that was removed again: governed by the admin key only
+    pub c: String,
+    /// created with a key, populated, then closed (binding kept, not open)
+    pub d: String,
+    pub missing: String,
+    /// B's name does not occur inside any other legitimate name (leak check on the name is sound)
+    pub b_name_distinctive: bool,
+}
+
+impl Names {
+    pub fn pair(i: usize) -> Names {
+        let (a, b, distinct) = match i % 3 {
+            0 => ("acorn_a1", "zebra_b9", true),
+            // A's storage prefix "acorn" is a string prefix of B's "acorn_zq9"
+            1 => ("acorn", "acorn_zq9", true),
+            // B's name is a string prefix of A's
+            _ => ("tenant_xq_long", "tenant_xq", false),
+        };
+        Names {
+            primary: "prim_core0".into(),
+            a: a.into(),
+            b: b.into(),
+            c: "cedar_c3".into(),
+            d: "dormant_d4".into(),
+            missing: "nosuch_m7".into(),
+            b_name_distinctive: distinct,
+        }
+    }
+    pub fn coll(&self, db: &str) -> String {
+        if db == self.a {
+            "items_alpha".into()
+        } else if db == self.b {
+            "stock_zq".into()
+        } else if db == self.c {
+            "notes_cedar".into()
+        } else if db == self.d {
+            "attic_dormant".into()
+        } else {
+            "sys_journal".into()
+        }
+    }
+    pub fn marker(&self, db: &str) -> &'static str {
+        if db == self.a {
+            "ALPHAMARK"
+        } else if db == self.b {
+            "ZEBRAQUARTZ"
+        } else if db == self.c {
+            "CEDARMARK"
+        } else if db == self.d {
+            "DORMANTMARK"
+        } else {
+            "PRIMMARK"
+        }
+    }
+}
+
+#[derive(Clone, Debug)]
+pub struct Keys {
+    pub admin: String,
+    pub a: String,
+    /// first key of A, replaced by `a` (revoked by rotation)
+    pub a_old: String,
+    pub b: String,
+    /// the key B carries in the "another key" world
+    pub b_alt: String,
+    /// key once bound to C, removed (revoked by removal)
+    pub c_removed: String,
+    pub d: String,
+}
+
+impl Default for Keys {
+    fn default() -> Self {
+        Keys {
+            admin: "adm-5d1c6f0e92b74a13".into(),
+            a: "ka-93f1e7c2a05b4d68".into(),
+            a_old: "ka-old-1b7d44e0c9a2f356".into(),
+            b: "kb-e4a09c31f7d2586b".into(),
+            b_alt: "kb-alt-70c5b2e19d3f4a86".into(),
+            c_removed: "kc-gone-2f8e61a4d7c0b935".into(),
+            d: "kd-6a3f0b92e1c754d8".into(),
+        }
+    }
+}
+
+#[derive(Clone, Copy, PartialEq, Eq, Debug, Hash)]
+pub enum BMode {
+    /// B exists, bound to `keys.b`
+    Keyed,
+    /// B exists, bound to `keys.b_alt`
+    Rekeyed,
+    /// B exists without a key of its own (admin key only)
+    Unbound,
+    /// B does not exist
+    Absent,
+}
+
+pub const ALL_BMODES: [BMode; 4] = [BMode::Keyed, BMode::Rekeyed, BMode::Unbound, BMode::Absent];
+
+/// Lifecycle state the databases are brought into after the creation script.
+#[derive(Clone, Copy, PartialEq, Eq, Debug, Hash)]
+pub enum Life {
+    /// everything open, collections loaded, all state flushed
+    Warm,
+    /// as Warm, plus documents added/updated/removed after the last flush
+    Pending,
+    /// databases (and A's collection) switched to read-only
+    ReadOnly,
+    /// A, B, C closed and reopened through the root scope: collections not loaded yet
+    Reopened,
+    /// AppState shut down gracefully and connected again over the same store
+    Restarted,
+    /// a second AppState over a copy of the store taken without any shutdown
+    Crashed,
+    /// as Crashed, with unflushed document writes at the moment of the copy
+    CrashedPending,
+}
+
+pub const ALL_LIVES: [Life; 7] = [
+    Life::Warm,
+    Life::Pending,
+    Life::ReadOnly,
+    Life::Reopened,
+    Life::Restarted,
+    Life::Crashed,
+    Life::CrashedPending,
+];
+
+#[derive(Clone, Debug)]
+pub struct WorldSpec {
+    pub names: Names,
+    pub keys: Keys,
+    pub bmode: BMode,
+    pub life: Life,
+}
+
+/// In-process admin view (see `World::snap`). The light part is taken after every request, the
+/// heavy part (metadata bytes, key-acceptance matrix) at a lower cadence.
+#[derive(Clone, Debug, PartialEq, Eq)]
+pub struct Snap {
+    pub list: Vec<String>,
+    /// (database, read-only flag)
+    pub flags: Vec<(String, bool)>,
+    /// (database, loaded collection, read-only flag, document count)
+    pub coll_flags: Vec<(String, String, bool, u64)>,
+    pub per_db: Option<BTreeMap<String, Vec<u8>>>,
+    pub keys: Option<Vec<u8>>,
+}
+
+impl Snap {
+    /// What differs between two views: "<database list>", "<key acceptance matrix>", or the names
+    /// of the databases whose flags / collections / metadata changed. Heavy parts are compared
+    /// only when both views carry them.
+    pub fn diff(&self, other: &Snap) -> Vec<String> {
+        let mut d: BTreeSet<String> = BTreeSet::new();
+        if self.list != other.list {
+            d.insert("<database list>".to_string());
+        }
+        for (x, y) in [(&self.flags, &other.flags), (&other.flags, &self.flags)] {
+            for f in x {
+                if !y.contains(f) {
+                    d.insert(f.0.clone());
+                }
+            }
+        }
+        for (x, y) in [(&self.coll_flags, &other.coll_flags), (&other.coll_flags, &self.coll_flags)] {
+            for f in x {
+                if !y.contains(f) {
+                    d.insert(f.0.clone());
+                }
+            }
+        }
+        if let (Some(a), Some(b)) = (&self.keys, &other.keys) {
+            if a != b {
+                d.insert("<key acceptance matrix>".to_string());
+            }
+        }
+        if let (Some(a), Some(b)) = (&self.per_db, &other.per_db) {
+            let names: BTreeSet<&String> = a.keys().chain(b.keys()).collect();
+            for n in names {
+                if a.get(n) != b.get(n) {
+                    d.insert(n.clone());
+                }
+            }
+        }
+        d.into_iter().collect()
+    }
+}
+
+pub struct World {
+    pub spec: WorldSpec,
+    pub rec: RecStore,
+    pub state: AppState,
+    pub app: Router,
+    /// (db, collection) pairs whose handle is loaded (a read of any other collection is a cold
+    /// open, which the server documents as writing: `api/collection.rs::open`)
+    pub warm: BTreeSet<(String, String)>,
+    pub n_docs: u64,
+}
+
+/// Body limit of the worlds (small, so that the over-limit probe is cheap).
+pub const MAX_BODY: usize = 48 * 1024;
+
+pub fn server_options(primary: &str, admin: Option<String>) -> ServerOptions {
+    ServerOptions {
+        name: "c14".to_string(),
+        version: "0.0.0".to_string(),
+        primary_db: primary.to_string(),
+        description: "C14 world".to_string(),
+        api_key: admin,
+        // the periodic flush task must not fire inside a measured window
+        flush_interval: Duration::from_secs(86_400),
+        max_body_size: MAX_BODY,
+        ..Default::default()
+    }
+}
+
+pub fn collection_params(name: &str, marker: &str, with_hnsw: bool) -> Value {
+    let mut fields = vec![
+        json!({"name": "_id", "description": "", "type": "U64", "unique": true, "index": 0}),
+        json!({"name": "title", "description": marker, "type": "Text", "unique": false, "index": 1}),
+        json!({"name": "body", "description": "", "type": "Text", "unique": false, "index": 2}),
+        json!({"name": "score", "description": "", "type": {"Option": "U64"}, "unique": false, "index": 3}),
+    ];
+    let mut p = json!({
+        "config": {"name": name, "description": format!("{marker} collection")},
+        "btree_indexes": [["score"]],
+        "bm25_indexes": ["title", "body"],
+    });
+    if with_hnsw {
+        fields.push(json!({"name": "emb", "description": "", "type": "Vector", "unique": false, "index": 4}));
+        p["hnsw_indexes"] = json!([{"field": "emb", "config": {
+            "dimension": 4, "max_layers": 4, "max_connections": 8, "ef_construction": 50,
+            "ef_search": 20, "distance_metric": "Cosine", "select_neighbors_strategy": "Heuristic"}}]);
+    }
+    p["schema"] = json!({"fields": fields});
+    p
+}
+
+pub fn doc_for(marker: &str, i: u64, with_hnsw: bool) -> Value {
+    let mut d = json!({
+        "title": format!("{marker} title {i}"),
+        "body": format!("common words and {marker}{i} body text number {i}"),
+        "score": i * 10,
+    });
+    if with_hnsw {
+        let x = (i % 4) as usize;
+        let mut v = [0.05f64; 4];
+        v[x] = 1.0;
+        d["emb"] = json!(v);
+    }
+    d
+}
+
+pub fn has_hnsw(names: &Names, db: &str) -> bool {
+    db == names.a || db == names.b
+}
+
+impl World {
+    pub async fn admin_ok(&self, path: &str, method: &str, params: Value) -> Value {
+        let r = send(
+            &self.app,
+            &Req {
+                path: path.to_string(),
+                auth: Some(bearer(&self.spec.keys.admin)),
+                enc: Enc::Cbor,
+                method: method.to_string(),
+                params,
+            },
+        )
+        .await
+        .expect("world script request");
+        if r.status != 200 {
+            panic!("world script: {method} on {path} answered {}", r.describe());
+        }
+        r.result().unwrap_or(Value::Null)
+    }
+
+    async fn populate(&mut self, db: &str, n_docs: u64) {
+        let names = self.spec.names.clone();
+        let coll = names.coll(db);
+        let marker = names.marker(db);
+        let hnsw = has_hnsw(&names, db);
+        let path = format!("/{db}");
+        self.admin_ok(&path, "collection.create", collection_params(&coll, marker, hnsw)).await;
+        for i in 1..=n_docs {
+            self.admin_ok(&path, "doc.add", json!({"collection": coll, "doc": doc_for(marker, i, hnsw)}))
+                .await;
+        }
+        self.admin_ok(&path, "db.save_extension", json!({"key": "ext_db", "value": format!("{marker}_DBEXT")}))
+            .await;
+        self.admin_ok(
+            &path,
+            "collection.save_extension",
+            json!({"collection": coll, "key": "ext_coll", "value": format!("{marker}_COLLEXT")}),
+        )
+        .await;
+        self.warm.insert((db.to_string(), coll));
+    }
+
+    /// The creation script. Identical in every `BMode` except for the requests that concern B.
+    pub async fn build(spec: WorldSpec) -> World {
+        let rec = RecStore::new();
+        rec.set_record_reads(false);
+        let state = AppState::connect(
+            rec.as_dyn(),
+            server_options(&spec.names.primary, Some(spec.keys.admin.clone())),
+        )
+        .await
+        .expect("AppState::connect");
+        let app = build_router(state.clone());
+        let mut w = World { spec, rec, state, app, warm: BTreeSet::new(), n_docs: 5 };
+        let (n, k) = (w.spec.names.clone(), w.spec.keys.clone());
+        // A: created under a first key which is then rotated away
+        w.admin_ok("/", "db.create", json!({"name": n.a, "api_key": k.a_old})).await;
+        w.admin_ok("/", "db.set_api_key", json!({"name": n.a, "api_key": k.a})).await;
+        // C: key bound, then removed
+        w.admin_ok("/", "db.create", json!({"name": n.c, "description": "cedar"})).await;
+        w.admin_ok("/", "db.set_api_key", json!({"name": n.c, "api_key": k.c_removed})).await;
+        w.admin_ok("/", "db.remove_api_key", json!({"name": n.c})).await;
+        // D: keyed, populated, closed (binding is kept by db.close)
+        w.admin_ok("/", "db.create", json!({"name": n.d, "api_key": k.d})).await;
+        w.populate(&n.d.clone(), 2).await;
+        w.admin_ok("/", "db.close", json!({"name": n.d})).await;
+        w.warm.retain(|(db, _)| db != &n.d);
+        // B
+        match w.spec.bmode {
+            BMode::Keyed => {
+                w.admin_ok("/", "db.create", json!({"name": n.b, "api_key": k.b})).await;
+            }
+            BMode::Rekeyed => {
+                w.admin_ok("/", "db.create", json!({"name": n.b, "api_key": k.b_alt})).await;
+            }
+            BMode::Unbound => {
+                w.admin_ok("/", "db.create", json!({"name": n.b})).await;
+            }
+            BMode::Absent => {}
+        }
+        let nd = w.n_docs;
+        w.populate(&n.a.clone(), nd).await;
+        if w.spec.bmode != BMode::Absent {
+            w.populate(&n.b.clone(), nd).await;
+        }
+        w.populate(&n.c.clone(), 2).await;
+        w.populate(&n.primary.clone(), 2).await;
+        for db in w.open_dbs() {
+            w.admin_ok(&format!("/{db}"), "db.flush", json!({})).await;
+        }
+        w.apply_life().await;
+        w
+    }
+
+    pub fn open_dbs(&self) -> Vec<String> {
+        let n = &self.spec.names;
+        let mut v = vec![n.primary.clone(), n.a.clone(), n.c.clone()];
+        if self.spec.bmode != BMode::Absent {
+            v.push(n.b.clone());
+        }
+        v
+    }
+
+    async fn apply_life(&mut self) {
+        let n = self.spec.names.clone();
+        match self.spec.life {
+            Life::Warm => {}
+            Life::Pending | Life::CrashedPending => {
+                for db in self.open_dbs() {
+                    let (coll, marker, hnsw) = (n.coll(&db), n.marker(&db), has_hnsw(&n, &db));
+                    let path = format!("/{db}");
+                    self.admin_ok(&path, "doc.add", json!({"collection": coll, "doc": doc_for(marker, 77, hnsw)}))
+                        .await;
+                    self.admin_ok(
+                        &path,
+                        "doc.update",
+                        json!({"collection": coll, "_id": 1, "fields": {"title": format!("{marker} retitled")}}),
+                    )
+                    .await;
+                    self.admin_ok(&path, "doc.remove", json!({"collection": coll, "_id": 2})).await;
+                }
+                if self.spec.life == Life::CrashedPending {
+                    let copy = self.rec.snapshot().await;
+                    let rec = RecStore::over(copy);
+                    rec.set_record_reads(false);
+                    self.reconnect(rec).await;
+                }
+            }
+            Life::ReadOnly => {
+                for db in self.open_dbs() {
+                    let path = format!("/{db}");
+                    self.admin_ok(
+                        &path,
+                        "collection.set_read_only",
+                        json!({"collection": n.coll(&db), "read_only": true}),
+                    )
+                    .await;
+                    self.admin_ok(&path, "db.set_read_only", json!({"read_only": true})).await;
+                }
+            }
+            Life::Reopened => {
+                for db in self.open_dbs() {
+                    if db == n.primary {
+                        continue;
+                    }
+                    self.admin_ok("/", "db.close", json!({"name": db})).await;
+                    self.admin_ok("/", "db.open", json!({"name": db})).await;
+                    self.warm.retain(|(d, _)| d != &db);
+                }
+            }
+            Life::Restarted => {
+                self.state.shutdown().await;
+                self.reconnect(self.rec.clone()).await;
+            }
+            Life::Crashed => {
+                let copy = self.rec.snapshot().await;
+                let rec = RecStore::over(copy);
+                rec.set_record_reads(false);
+                self.reconnect(rec).await;
+            }
+        }
+    }
+
+    /// New `AppState` + router over `rec` (a restart of the process).
+    pub async fn reconnect(&mut self, rec: RecStore) {
+        let state = AppState::connect(
+            rec.as_dyn(),
+            server_options(&self.spec.names.primary, Some(self.spec.keys.admin.clone())),
+        )
+        .await
+        .expect("AppState::connect (restart)");
+        self.app = build_router(state.clone());
+        self.state = state;
+        self.rec = rec;
+        self.warm.clear();
+    }
+
+    /// The key bound to `db` in this world according to the creation script.
+    pub fn bound_key(&self, db: &str) -> Option<&str> {
+        let (n, k) = (&self.spec.names, &self.spec.keys);
+        if db == n.a {
+            Some(&k.a)
+        } else if db == n.d {
+            Some(&k.d)
+        } else if db == n.b {
+            match self.spec.bmode {
+                BMode::Keyed => Some(&k.b),
+                BMode::Rekeyed => Some(&k.b_alt),
+                _ => None,
+            }
+        } else {
+            None
+        }
+    }
+
+    /// Effective (state-changing) mutations since `mark`.
+    pub fn effective_since(&self, mark: usize) -> Vec<Mutation> {
+        self.rec.mutations_since(mark, None).into_iter().filter(|m| m.effective()).collect()
+    }
+
+    /// In-process admin view that loads nothing and writes nothing. Light: database list,
+    /// read-only flags of the databases and of the loaded collections (+ their document count).
+    /// Heavy: per-database metadata (collections, extensions - for the primary these are the
+    /// registry and the key hashes) and the key-acceptance matrix over every name and key of the
+    /// script.
+    pub async fn snap(&self, heavy: bool) -> Snap {
+        let list = self.state.db_names().await;
+        let mut flags = vec![];
+        let mut coll_flags = vec![];
+        let mut per_db = BTreeMap::new();
+        for name in &list {
+            if let Ok(db) = self.state.get_db(name).await {
+                flags.push((name.clone(), db.is_read_only()));
+                for (d, c) in self.warm.iter().filter(|(d, _)| d == name) {
+                    // a loaded handle is returned by the fast path (no storage access)
+                    if let Ok(col) = db.open_collection(c.clone(), async |_| Ok(())).await {
+                        let s = col.stats();
+                        coll_flags.push((d.clone(), c.clone(), s.read_only, s.num_documents));
+                    }
+                }
+                if heavy {
+                    let mut out: Vec<u8> = vec![];
+                    cbor2::ser::to_writer(&db.metadata(), &mut out).unwrap();
+                    per_db.insert(name.clone(), out);
+                }
+            }
+        }
+        if !heavy {
+            return Snap { list, flags, coll_flags, per_db: None, keys: None };
+        }
+        let (n, k) = (&self.spec.names, &self.spec.keys);
+        let dbs = [&n.primary, &n.a, &n.b, &n.c, &n.d, &n.missing];
+        let keys = [&k.admin, &k.a, &k.a_old, &k.b, &k.b_alt, &k.c_removed, &k.d];
+        let mut km = vec![];
+        for key in keys {
+            km.push(self.state.authorize(Scope::Root, Some(key)).is_ok() as u8);
+            for db in dbs {
+                km.push(self.state.authorize(Scope::Database(db), Some(key)).is_ok() as u8);
+            }
+        }
+        Snap { list, flags, coll_flags, per_db: Some(per_db), keys: Some(km) }
+    }
+
+    /// Admin view over HTTP: database list and, per open database, metadata, collection list,
+    /// per collection the document count, every document and the definition (without the
+    /// operation counters, which reads legitimately advance in memory).
+    pub async fn full_snapshot(&mut self) -> Value {
+        let list = self.admin_ok("/", "db.list", json!({})).await;
+        let mut dbs = serde_json::Map::new();
+        for name in list.as_array().cloned().unwrap_or_default() {
+            let name = name.as_str().unwrap_or("").to_string();
+            let path = format!("/{name}");
+            let meta = self.admin_ok(&path, "db.metadata", json!({})).await;
+            let colls = self.admin_ok(&path, "collection.list", json!({})).await;
+            let mut cs = serde_json::Map::new();
+            for c in colls.as_array().cloned().unwrap_or_default() {
+                let c = c.as_str().unwrap_or("").to_string();
+                let count = self.admin_ok(&path, "doc.count", json!({"collection": c})).await;
+                let ids: Vec<u64> = (0..=90).collect();
+                let docs = self.admin_ok(&path, "doc.get_many", json!({"collection": c, "_ids": ids})).await;
+                let mut cm = self.admin_ok(&path, "collection.metadata", json!({"collection": c})).await;
+                let st = cm["stats"].clone();
+                cm["stats"] = json!({"read_only": st["read_only"], "num_documents": st["num_documents"],
+                                     "max_document_id": st["max_document_id"]});
+                self.warm.insert((name.clone(), c.clone()));
+                cs.insert(c, json!({"count": count, "docs": docs, "meta": cm}));
+            }
+            dbs.insert(name, json!({"meta": meta, "collections": cs}));
+        }
+        json!({"list": list, "dbs": dbs})
+    }
+
+    pub async fn shutdown(self) {
+        self.state.shutdown().await;
+    }
+}
+
+// ---------------------------------------------------------------------------------------------
+// parameter builders
+
+/// What a request's parameters refer to: the addressed database when the harness knows it,
+/// else A's content.
+#[derive(Clone, Debug)]
+pub struct Target {
+    pub db: String,
+    pub coll: String,
+    pub marker: &'static str,
+    pub hnsw: bool,
+    /// a database name that is NOT the addressed one, planted in ignored parameter fields
+    pub decoy: String,
+}
+
+impl Target {
+    pub fn of(names: &Names, addressed: Option<&str>) -> Target {
+        let known = [&names.primary, &names.a, &names.b, &names.c, &names.d];
+        let db = match addressed {
+            Some(d) if known.iter().any(|k| k.as_str() == d) => d.to_string(),
+            _ => names.a.clone(),
+        };
+        let decoy = if db == names.b { names.a.clone() } else { names.b.clone() };
+        Target {
+            coll: names.coll(&db),
+            marker: names.marker(&db),
+            hnsw: has_hnsw(names, &db),
+            db,
+            decoy,
+        }
+    }
+}
+
+/// Which database a root-scope request names in `params.name`.
+#[derive(Clone, Copy, PartialEq, Eq, Debug, Hash)]
+pub enum RootAim {
+    /// the natural valid target of the method (see `root_params`)
+    Natural,
+    /// the caller's sibling: B
+    Other,
+}
+
+pub const KNOWN_ROOT: [&str; 8] = [
+    "info", "db.list", "db.create", "db.open", "db.connect", "db.close", "db.set_api_key",
+    "db.remove_api_key",
+];
+
+/// Valid parameters of the root-scope methods known today; `None` for a method added later.
+pub fn root_params(method: &str, names: &Names, aim: RootAim) -> Option<Value> {
+    let other = aim == RootAim::Other;
+    Some(match method {
+        "info" | "db.list" => json!({}),
+        "db.create" => json!({"name": if other { names.b.clone() } else { "fresh_made1".to_string() },
+                              "api_key": "key-of-fresh-made-1"}),
+        "db.open" => json!({"name": if other { &names.b } else { &names.d }}),
+        "db.connect" => json!({"name": if other { names.b.clone() } else { "fresh_conn2".to_string() }}),
+        "db.close" => json!({"name": if other { &names.b } else { &names.c }}),
+        "db.set_api_key" => json!({"name": if other { &names.b } else { &names.a }, "api_key": "key-rotated-in-3"}),
+        "db.remove_api_key" => json!({"name": if other { &names.b } else { &names.a }}),
+        _ => return None,
+    })
+}
+
+/// Valid parameters of the database-scope methods known today; `None` for a method added later.
+/// Every object carries ignored top-level fields naming another database (`decoy`): a handler
+/// that resolved the database from the parameters instead of the authorized path would act there.
+pub fn db_params(method: &str, t: &Target) -> Option<Value> {
+    let c = &t.coll;
+    let mut p = match method {
+        "info" | "db.metadata" | "db.stats" | "db.flush" | "collection.list" => json!({}),
+        "db.set_read_only" => json!({"read_only": true}),
+        "db.get_extension" => json!({"key": "ext_db"}),
+        "db.save_extension" => json!({"key": "ext_new", "value": format!("{}_NEWEXT", t.marker)}),
+        "db.remove_extension" => json!({"key": "ext_db"}),
+        "collection.create" => collection_params("made_later", t.marker, false),
+        "collection.ensure" => collection_params(c, t.marker, t.hnsw),
+        "collection.metadata" | "collection.stats" | "collection.delete" | "collection.flush"
+        | "doc.count" => json!({"collection": c}),
+        "collection.set_read_only" => json!({"collection": c, "read_only": true}),
+        "collection.get_extension" | "collection.remove_extension" => {
+            json!({"collection": c, "key": "ext_coll"})
+        }
+        "collection.save_extension" => json!({"collection": c, "key": "ext_more", "value": 7}),
+        "doc.add" => json!({"collection": c, "doc": doc_for(t.marker, 50, t.hnsw)}),
+        "doc.add_many" => json!({"collection": c, "docs": [doc_for(t.marker, 51, t.hnsw), doc_for(t.marker, 52, t.hnsw)]}),
+        "doc.get" | "doc.exists" | "doc.remove" => json!({"collection": c, "_id": 1}),
+        "doc.get_many" => json!({"collection": c, "_ids": [1, 2, 99]}),
+        "doc.update" => json!({"collection": c, "_id": 1, "fields": {"title": format!("{} updated", t.marker)}}),
+        "doc.search" => {
+            if t.hnsw {
+                json!({"collection": c, "query": {"search": {"text": "common words", "vector": [1.0, 0.0, 0.0, 0.0]}, "limit": 5}})
+            } else {
+                json!({"collection": c, "query": {"search": {"text": "common words"}, "limit": 5}})
+            }
+        }
+        "doc.search_ids" => json!({"collection": c, "query": {"filter": {"Field": ["score", {"Ge": 0}]}, "limit": 5}}),
+        "doc.query_ids" | "doc.query_last_ids" => {
+            json!({"collection": c, "filter": {"Field": ["score", {"Ge": 10}]}, "limit": 3})
+        }
+        _ => return None,
+    };
+    for k in ["name", "db", "db_name", "database"] {
+        if p.get(k).is_none() {
+            p[k] = json!(t.decoy);
+        }
+    }
+    Some(p)
+}
+
+pub const KNOWN_DB: [&str; 31] = [
+    "info", "db.metadata", "db.stats", "db.flush", "db.set_read_only", "db.get_extension",
+    "db.save_extension", "db.remove_extension", "collection.list", "collection.create",
+    "collection.ensure", "collection.metadata", "collection.stats", "collection.delete",
+    "collection.flush", "collection.set_read_only", "collection.get_extension",
+    "collection.save_extension", "collection.remove_extension", "doc.add", "doc.add_many",
+    "doc.get", "doc.get_many", "doc.update", "doc.remove", "doc.exists", "doc.count", "doc.search",
+    "doc.search_ids", "doc.query_ids", "doc.query_last_ids",
+];
+
+/// Does this database-scope method name a collection in its parameters?
+pub fn touches_collection(method: &str) -> bool {
+    method.starts_with("collection.") && method != "collection.list" && method != "collection.create"
+        || method.starts_with("doc.")
+}
+
+/// First forbidden needle that occurs in `hay`.
+pub fn find_leak<'a>(hay: &[u8], needles: &'a [String]) -> Option<&'a str> {
+    needles
+        .iter()
+        .find(|n| !n.is_empty() && hay.windows(n.len()).any(|w| w == n.as_bytes()))
+        .map(|s| s.as_str())
+}
+
+/// Replaces values that legitimately differ between two executions of the same script
+/// (unix-millisecond timestamps) by a constant.
+pub fn mask_times(v: &Value) -> Value {
+    match v {
+        Value::Number(n) => match n.as_u64() {
+            Some(x) if x >= 1_000_000_000_000 && x < 100_000_000_000_000 => json!("<ms>"),
+            _ => v.clone(),
+        },
+        Value::Array(a) => Value::Array(a.iter().map(mask_times).collect()),
+        Value::Object(o) => Value::Object(o.iter().map(|(k, x)| (k.clone(), mask_times(x))).collect()),
+        _ => v.clone(),
+    }
+}
+
+pub fn new_runtime() -> tokio::runtime::Runtime {
+    tokio::runtime::Builder::new_current_thread()
+        .enable_time()
+        .build()
+        .expect("tokio current-thread runtime")
+}
